@@ -151,7 +151,13 @@ public:
     auto junk = [&]() { std::string d; size_t n = 1 + (size_t)r.below(40); for (size_t q = 0; q < n; q++) d.push_back((char)r.below(256)); return d; };
     std::string effOut = outName.empty() ? (tool == "xrun" ? "a.bin" : "a.out") : outName;
     if (tool == "xrun") effOut = "a.bin";
-    if (r.chance(1, 2) && effOut != srcName) { Json f = Json::object(); f["op"] = "file"; f["path"] = effOut; f["hex"] = sim::toHex(junk()); f["role"] = "preexisting_output"; ops.push(f); }
+    if (r.chance(1, 2) && effOut != srcName) {
+      Json f = Json::object(); f["op"] = "file"; f["path"] = effOut; f["hex"] = sim::toHex(junk()); f["role"] = "preexisting_output";
+      // Sometimes the file left behind by an earlier build of almost the same source: the expected
+      // binary with one byte changed near the end of the program or in the symbol section.
+      if (r.chance(1, 3)) f["near_copy"] = (unsigned long long)(1 + r.below(1000));
+      ops.push(f);
+    }
     if (r.chance(1, 3)) { Json f = Json::object(); f["op"] = "file"; f["path"] = r.chance(1, 2) ? "a.out" : "a.bin"; f["hex"] = sim::toHex(junk()); f["role"] = "bystander"; ops.push(f); }
     if (r.chance(1, 4)) { Json f = Json::object(); f["op"] = "file"; f["path"] = "notes.txt"; f["hex"] = sim::toHex(junk()); f["role"] = "bystander"; ops.push(f); }
     // The invocation.
@@ -308,7 +314,7 @@ public:
       if (tool == "hexasm") return hexasm_main(argc, av.data());
       if (tool == "xrun") return xrun_main(argc, (char **)av.data());
       return hexsim_main(argc, av.data());
-    }, 90);
+    }, 30);
     r.out = ss.out.data; r.err = ss.err.data; r.consumed = ss.in.consumed();
     ss.detach();
     r.after = sim::fs::snapshot();
@@ -407,6 +413,7 @@ public:
 
   void run(const Json &plan, Outcome &o) {
     sim::fs::reset();
+    std::string nearCopyPath; uint64_t nearCopy = 0;
     std::string srcName, text, origin; bool haveSource = false;
     const Json *invp = nullptr;
     for (auto &op : plan.at("ops").a) {
@@ -416,6 +423,7 @@ public:
         sim::fs::put(op.getStr("path"), content);
         if (op.getStr("role") == "source") { srcName = op.getStr("path"); text = content; origin = op.getStr("origin"); haveSource = true; }
         else o.count("fault.prefile_" + op.getStr("role", "other"));
+        if (op.has("near_copy")) { nearCopyPath = op.getStr("path"); nearCopy = op.getU64("near_copy"); }
       } else if (k == "tool") invp = &op;
     }
     if (!invp) { o.note = "skipped:no_invocation"; return; }
@@ -465,6 +473,24 @@ public:
     // Open failures are injected for xcmp and hexasm only: xrun would go on to load a binary that
     // is missing or stale, and hexsim's loader on such a file is undefined behaviour (not this
     // property's subject, and not repeatable).
+    if (nearCopy && inputPresent && lr.accepted && nearCopyPath == effOut && lr.bytes.size() > 12) {
+      std::string prev = lr.bytes;
+      uint32_t words = 0; std::memcpy(&words, prev.data(), 4);
+      size_t progEnd = std::min(prev.size(), (size_t)4 + (size_t)words * 4);
+      // Either a byte of the last program word, or one letter of a symbol name (the tables stay
+      // well-formed: a malformed table sends hexsim's loader into undefined behaviour).
+      std::vector<size_t> letters;
+      {
+        // The string table: a count, then NUL-terminated names.
+        size_t q = progEnd + 4; uint32_t n = 0;
+        if (progEnd + 4 <= prev.size()) std::memcpy(&n, prev.data() + progEnd, 4);
+        for (uint32_t k = 0; k < n && q < prev.size(); k++) { while (q < prev.size() && prev[q] != '\0') { if (std::isalpha((unsigned char)prev[q])) letters.push_back(q); q++; } q++; }
+      }
+      if (nearCopy % 3 == 0 || letters.empty()) { size_t at = progEnd - 1 - (size_t)(nearCopy % 4); prev[at] = (char)(prev[at] ^ (char)(1 + nearCopy % 200)); }
+      else { size_t at = letters[nearCopy % letters.size()]; prev[at] = prev[at] == 'q' ? 'z' : 'q'; }
+      sim::fs::put(effOut, prev);
+      o.count("fault.prefile_previous_build_near_copy");
+    }
     bool injected = inv.getBool("inject_open_failure") && tool != "xrun";
     if (injected) sim::fs::failOpen(effOut, 13 /*EACCES*/, true);
     obsSuppress = injected;          // an injected fault has no counterpart in the real-executable layer
